@@ -245,18 +245,12 @@ def rule_o4(ctx):
     cmps = []
     for b, blk in enumerate(body.blocks):
         for st in blk["stmts"]:
-            if st["k"] == "assign" and st["rv"]["k"] == "binop" and st["rv"]["op"] == "Eq":
+            if st["k"] == "assign" and st["rv"]["k"] == "binop" and st["rv"]["op"] in ("Eq", "Ne"):
                 ops = xor_operands(st["rv"]["l"]) | xor_operands(st["rv"]["r"])
                 if not ops:
                     continue
-                d = st["place"]["l"]
-                for x in range(body.n):
-                    tt = body.term(x)
-                    if tt and tt["k"] == "switch" and tt["discr"]["k"] in ("copy", "move") and tt["discr"]["place"]["l"] == d:
-                        false_t = {tg for v, tg in tt["targets"] if v == 0}
-                        for s_ in body.succs(x):
-                            if s_ not in false_t:
-                                cmps.append((x, s_, ops))
+                for (x, s_) in mir.equality_edges(body, st):
+                    cmps.append((x, s_, ops))
     n = 0
     for b, blk in enumerate(body.blocks):
         if blk["cleanup"]:
@@ -324,7 +318,7 @@ def rule_o5(ctx):
         seen = {}
         for b, blk in enumerate(body.blocks):
             for st in blk["stmts"]:
-                if st["k"] == "assign" and st["rv"]["k"] == "binop" and st["rv"]["op"] == "Eq":
+                if st["k"] == "assign" and st["rv"]["k"] == "binop" and st["rv"]["op"] in ("Eq", "Ne"):
                     l, r = who(st["rv"]["l"]), who(st["rv"]["r"])
                     key = None
                     if l in ("x", "y") and r in (0, 1):
@@ -338,14 +332,9 @@ def rule_o5(ctx):
                     if key is None or key not in table:
                         continue
                     # follow the true edge through gotos to the returned value
-                    d = st["place"]["l"]
-                    for x in range(body.n):
-                        tt = body.term(x)
-                        if tt and tt["k"] == "switch" and tt["discr"]["k"] in ("copy", "move") and tt["discr"]["place"]["l"] == d:
-                            false_t = {tg for v, tg in tt["targets"] if v == 0}
-                            for s_ in body.succs(x):
-                                if s_ in false_t:
-                                    continue
+                    if True:
+                        if True:
+                            for (x, s_) in sorted(mir.equality_edges(body, st)):
                                 cur = s_
                                 val = None
                                 for _ in range(6):
@@ -399,7 +388,7 @@ def rule_o6(ctx):
     tests = {}
     for b, blk in enumerate(body.blocks):
         for st in blk["stmts"]:
-            if st["k"] == "assign" and st["rv"]["k"] == "binop" and st["rv"]["op"] == "Eq":
+            if st["k"] == "assign" and st["rv"]["k"] == "binop" and st["rv"]["op"] in ("Eq", "Ne"):
                 l, r = st["rv"]["l"], st["rv"]["r"]
                 c = r if r["k"] == "const" else (l if l["k"] == "const" else None)
                 o = l if c is r else r
@@ -408,14 +397,8 @@ def rule_o6(ctx):
                 who = {("x" if rr == ("arg", 2) else "y") for (rr, pp) in body.trace_operand(o) if rr in (("arg", 2), ("arg", 3)) and not pp}
                 if len(who) != 1:
                     continue
-                d = st["place"]["l"]
-                for x in range(body.n):
-                    tt = body.term(x)
-                    if tt and tt["k"] == "switch" and tt["discr"]["k"] in ("copy", "move") and tt["discr"]["place"]["l"] == d:
-                        false_t = {tg for v, tg in tt["targets"] if v == 0}
-                        for s_ in body.succs(x):
-                            if s_ not in false_t:
-                                tests.setdefault(next(iter(who)), set()).add((x, s_))
+                for e in mir.equality_edges(body, st):
+                    tests.setdefault(next(iter(who)), set()).add(e)
     from .C02 import _dominated_by_edges
     for (b, k, v, sp) in ins:
         guard = None
@@ -474,17 +457,14 @@ def rule_o7(ctx):
     guards = []  # (pair, set of blocks reached in a straight line from the true edge)
     for b, blk in enumerate(body.blocks):
         for st in blk["stmts"]:
-            if st["k"] == "assign" and st["rv"]["k"] == "binop" and st["rv"]["op"] == "Eq":
+            if st["k"] == "assign" and st["rv"]["k"] == "binop" and st["rv"]["op"] in ("Eq", "Ne"):
                 l, r = item(st["rv"]["l"]), item(st["rv"]["r"])
                 if len(l) != 1 or len(r) != 1:
                     continue
-                d = st["place"]["l"]
-                for x in range(body.n):
-                    tt = body.term(x)
-                    if tt and tt["k"] == "switch" and tt["discr"]["k"] in ("copy", "move") and tt["discr"]["place"]["l"] == d:
-                        false_t = {tg for v, tg in tt["targets"] if v == 0}
-                        for s_ in nsuccs(x):
-                            if s_ in false_t:
+                if True:
+                    if True:
+                        for (x, s_) in sorted(mir.equality_edges(body, st)):
+                            if body.blocks[s_]["cleanup"]:
                                 continue
                             line = set()
                             cur = s_
